@@ -221,7 +221,8 @@ impl ObjectTransmissionInformation {
                     return kprime;
                 }
             }
-            unreachable!();
+            // No K' fits into the memory budget with n sub-blocks; a larger n may still work
+            0
         };
 
         let num_source_blocks = int_div_ceil(kt as u64, kl(n_max) as u64);
